@@ -182,8 +182,62 @@ def run(ck):
                                         if vname == "whole" and not closing:
                                             cases.append(dict(cfgc, max_msg=0, max_frame=0, chunks=[stream.hex()]))
                                             meta.append(dict(nolimit=True))
-        ck.log(f"[{fw}] limits grid: {len(cases)} implementation runs")
-        results = ck.run_impl("ws_recv.py", {"fw": fw, "cases": cases}, nvx=False, timeout=3000)["results"]
+        burst_of = {}
+        if fw == "aio":
+            # asyncio: every multi-read delivery also as one burst (all data_received() calls before the loop turns)
+            for i in range(len(cases)):
+                if len(cases[i]["chunks"]) >= 2:
+                    burst_of[len(cases)] = i
+                    cases.append(dict(cases[i], burst=True))
+                    meta.append(dict(meta[i], burst=True))
+        # what the protocol object retains once a frame was rejected while its payload keeps arriving
+        ret_cases = []
+        for role in ("server", "client"):
+            for L, size in ((1, 40), (125, 126), (126, 3000), (1000, 70000)):
+                if quick and size > 3000 and role == "client":
+                    continue
+                payload = bytes((i * 5) & 0x7F for i in range(size))
+                fr = base.enc_frame(2, payload, masked=(role == "server"), key=b"\x11\x22\x33\x44")
+                h = header_len(fr)
+                for kind, lim_msg, lim_frame in (("msg", L, 0), ("frame", 0, L), ("both-equal", L, L)):
+                    for closing in (False, True):
+                        cfgc = dict(BASE, role=role, max_msg=lim_msg, max_frame=lim_frame, closing=closing, observe_retained=True, nolost=True)
+                        step = max(1, size // 7)
+                        streamed = [fr[:h]] + [fr[h + k:h + k + step] for k in range(0, size, step)]
+                        half = [fr[:h]] + [fr[h + k:h + k + step] for k in range(0, size // 2, step)]
+                        # close-handshake policy: the connection stays up, the peer keeps sending the rejected frame
+                        for dname, chunks in (("whole", [fr]), ("streamed", streamed), ("streamed-half", half), ("header", [fr[:h]])):
+                            if closing and dname != "header":
+                                continue      # CLOSING + violation = TCP dropped at the header: nothing arrives afterwards
+                            ret_cases.append((dict(cfgc, fbd=False, chunks=[x.hex() for x in chunks]), dict(kind=kind, L=L, size=size, delivery=dname, hdr=h)))
+                        # drop policy: the transport is aborted at the header; only that read is looked at
+                        ret_cases.append((dict(cfgc, fbd=True, chunks=[fr[:h].hex()]), dict(kind=kind, L=L, size=size, delivery="header", hdr=h)))
+        if fw == "aio":
+            ret_cases += [(dict(c, burst=True), dict(m, delivery=m["delivery"] + "+burst")) for c, m in ret_cases if len(c["chunks"]) >= 2]
+        ck.log(f"[{fw}] limits grid: {len(cases)} implementation runs (+{len(ret_cases)} retention runs)")
+        results = ck.run_impl("ws_recv.py", {"fw": fw, "cases": cases + [c for c, _ in ret_cases]}, nvx=False, timeout=3000)["results"]
+        ret_results = results[len(cases):]
+        results = results[:len(cases)]
+        ck.evaluations += len(ret_cases)
+        for (c, m), r in zip(ret_cases, ret_results):
+            kept = r.get("retained") or {}
+            total = sum(kept.values())
+            st = "closing" if c["closing"] else "open"
+            ck.bump(f"retained:{m['delivery']}:{'ok' if total <= 14 else 'kept'}")
+            delivered = [e for e in r["events"] if e[0] == "msg"]
+            if total > 14 or delivered:
+                ck.violation(f"{c['role']}/payload-retained-after-rejection/fbd={c['fbd']}/{st}",
+                             f"[{fw}] limits msg={c['max_msg']} frame={c['max_frame']}, state {st}: after the {m['size']}-octet frame was rejected at its "
+                             f"header ({m['delivery']} delivery) the protocol object still holds {total} octets {kept}"
+                             + (f" and delivered {len(delivered)} message(s)" if delivered else ""),
+                             {"fw": fw, "case": c, "observed": r, "retention": m}, found_input=True)
+        for ib, io in burst_of.items():
+            ck.bump("burst_runs")
+            if base.canon_result(results[ib]) != base.canon_result(results[io]):
+                ck.violation(f"aio/burst-dependent/failByDrop={cases[ib]['fbd']}",
+                             f"[{fw}] reads {[len(x) // 2 for x in cases[ib]['chunks']]} delivered back to back before the event loop runs give "
+                             f"{results[ib]['events'][-3:]} state {results[ib]['state']}, read by read {results[io]['events'][-3:]} state {results[io]['state']}",
+                             {"fw": fw, "case": cases[ib], "observed": results[ib], "read_by_read_observed": results[io]}, found_input=True)
         ck.evaluations += len(cases)
         ck.note_cases(0, (json.dumps([fw, c["role"], c["fbd"], c["closing"], c["max_msg"], c["max_frame"], [len(x) for x in c["chunks"]], c["chunks"][0][:24]])
                           for c in cases if c["max_msg"] or c["max_frame"]))
@@ -199,7 +253,7 @@ def run(ck):
                                  f"differently than without a limit: {lr['events'][:3]} vs {r['events'][:3]}",
                                  {"fw": fw, "case": lc, "observed": lr, "nolimit_observed": r}, found_input=True)
                 continue
-            if m["variant"] == "whole" and not m["closing"]:
+            if m["variant"] == "whole" and not m["closing"] and not m.get("burst"):
                 last_whole = (c, r, m)
             over, first_bad = overage(c, m)
             st = "closing" if m["closing"] else "open"
